@@ -5,11 +5,11 @@ use crate::real::{real_pair, Corpus};
 use fbh::prng::Rng;
 
 pub fn plain_member(name: &str, desc: &str) -> AMember {
-	AMember { name: name.to_owned(), desc: desc.to_owned(), access: 0x0001, depr: false, synth: false, inv: vec![], vis: vec![], payload: None }
+	AMember { name: name.to_owned(), desc: desc.to_owned(), access: 0x0001, depr: false, synth: false, inv: vec![], vis: vec![], payload: None, opq: [0; 5] }
 }
 pub fn plain_class(name: &str) -> AClass {
 	AClass { version: 4, access: 0x0021, name: name.to_owned(), sup: Some("j/Object".to_owned()), itfs: vec![], fields: vec![], methods: vec![],
-		depr: false, synth: false, inner: None, vis: vec![], inv: vec![], perm: None, records: vec![], source_file: None, attrs: vec![] }
+		depr: false, synth: false, inner: None, vis: vec![], inv: vec![], perm: None, records: vec![], source_file: None, attrs: vec![], opq: [0; 7] }
 }
 
 fn subseq_of(rng: &mut Rng, s: &[u32], keep_num: usize, keep_den: usize) -> Vec<u32> { s.iter().copied().filter(|_| rng.chance(keep_num, keep_den)).collect() }
@@ -54,6 +54,19 @@ pub fn list_pair_n(rng: &mut Rng, n: usize) -> (&'static str, Vec<u32>, Vec<u32>
 	}
 }
 
+/// long lists (around 255/256 elements): interleavings of a common order, or the same scrambled by a few swaps
+pub fn long_list_pair(rng: &mut Rng) -> (&'static str, Vec<u32>, Vec<u32>) {
+	let n = *rng.pick(&[254usize, 255, 256, 257, 300]);
+	let mut s: Vec<u32> = (1..=n as u32 + 40).collect();
+	rng.shuffle(&mut s);
+	let a: Vec<u32> = s.iter().copied().filter(|_| rng.chance(9, 10)).take(n).collect();
+	let mut b: Vec<u32> = s.iter().copied().filter(|_| rng.chance(9, 10)).take(n).collect();
+	if rng.chance(1, 2) { for _ in 0..3 { if b.len() >= 2 { let i = rng.below(b.len() - 1); b.swap(i, i + 1); } } ("long-scrambled", a, b) } else { ("long-interleaving", a, b) }
+}
+
+/// class pairs whose opaque fields had to be dropped because duke does not round-trip them
+pub static PLAINER: std::sync::atomic::AtomicUsize = std::sync::atomic::AtomicUsize::new(0);
+
 #[derive(Clone, Copy, Debug, PartialEq)]
 pub enum Twist { None, Version, Access, ClassDepr, ClassSynth, MemberDepr, MemberSynth, Super, Name, Inner, DupKeys, BadBytes, KindMismatch }
 impl Twist {
@@ -89,7 +102,18 @@ fn gen_member(rng: &mut Rng, method: bool, id: u32) -> AMember {
 	// a method without Code is abstract or native, one with Code is neither
 	let access = if method && payload.is_none() { *rng.pick(&[0x0401u16, 0x0101, 0x0404, 0x0109]) } else { *rng.pick(&[0x0001u16, 0x0002, 0x0009, 0x0010, 0x0019]) };
 	AMember { name, desc: desc.to_owned(), access, depr: rng.chance(1, 8), synth: rng.chance(1, 8),
-		inv: gen_anns(rng), vis: if rng.chance(1, 5) { gen_anns(rng) } else { vec![] }, payload }
+		inv: gen_anns(rng), vis: if rng.chance(1, 5) { gen_anns(rng) } else { vec![] }, payload, opq: gen_opq5(rng, method) }
+}
+/// the fields the merge only copies: mostly absent, sometimes one of two values
+fn gen_opq5(rng: &mut Rng, method: bool) -> [u8; 5] {
+	let mut o = [0u8; 5];
+	if rng.chance(1, 3) { for (i, x) in o.iter_mut().enumerate() { if (method || i == 1 || i == 4) && rng.chance(1, 2) { *x = rng.range(1, 2) as u8; } } }
+	o
+}
+fn gen_opq7(rng: &mut Rng) -> [u8; 7] {
+	let mut o = [0u8; 7];
+	if rng.chance(1, 2) { for x in o.iter_mut() { if rng.chance(1, 3) { *x = rng.range(1, 2) as u8; } } }
+	o
 }
 
 /// two member lists whose key orders are related as list_pair says; shared keys carry equal or differing bodies
@@ -104,11 +128,12 @@ fn member_lists(rng: &mut Rng, method: bool, twist: Twist) -> (Vec<AMember>, Vec
 	let mut twisted = false;
 	for m in cb.iter_mut() {
 		if !a.iter().any(|&i| proto[i as usize].name == m.name && proto[i as usize].desc == m.desc) { continue; }
-		match rng.below(6) {
+		match rng.below(7) {
 			0 => m.access ^= if method && m.payload.is_none() { 0x0004 } else { 0x0010 },
 			1 => if m.payload.is_some() || !method { m.payload = Some(rng.below(50) as i8 - 100) },
 			2 => m.inv.push(AAnn::Other("ann/S".into())),
 			3 => m.vis.push(AAnn::Other("ann/V".into())),
+			4 => m.opq = gen_opq5(rng, method),
 			_ => {}
 		}
 		if !twisted && twist == Twist::MemberDepr { m.depr = !m.depr; twisted = true; }
@@ -131,6 +156,7 @@ fn class_pair(rng: &mut Rng, name: &str, twist: Twist) -> (AClass, AClass) {
 	if rng.chance(1, 5) { c.perm = Some(vec!["net/minecraft/P".into(), "net/minecraft/Q".into()]); }
 	if rng.chance(1, 5) { c.records = vec!["r".into()]; }
 	if rng.chance(1, 12) { c.attrs = vec![("Payload".into(), rng.next(), rng.range(0, 40))]; }
+	c.opq = gen_opq7(rng);
 	let mut s = c.clone();
 	match rng.below(5) {
 		0 => {} // identical
@@ -150,7 +176,16 @@ fn class_pair(rng: &mut Rng, name: &str, twist: Twist) -> (AClass, AClass) {
 			if rng.chance(1, 4) { s.vis.push(AAnn::Other("ann/SV".into())); }
 			if rng.chance(1, 4) { s.inv.push(AAnn::Other("ann/SI".into())); }
 			if rng.chance(1, 6) { s.perm = None; s.records = vec![]; }
+			// the two versions say different things in fields the merge only copies
+			if rng.chance(1, 2) { s.opq = gen_opq7(rng); }
+			if rng.chance(1, 8) { s.attrs = vec![("Payload".into(), rng.next(), rng.range(0, 40))]; }
 		}
+	}
+	if !roundtrips(&c) || !roundtrips(&s) {
+		// duke cannot carry this combination through its writer and reader: plainer classes
+		c.opq = [0; 7]; s.opq = [0; 7];
+		for m in c.fields.iter_mut().chain(c.methods.iter_mut()).chain(s.fields.iter_mut()).chain(s.methods.iter_mut()) { m.opq = [0; 5]; }
+		PLAINER.fetch_add(1, std::sync::atomic::Ordering::Relaxed);
 	}
 	match twist {
 		Twist::Version => s.version = (c.version + 1) % VERSIONS.len(),
@@ -165,12 +200,36 @@ fn class_pair(rng: &mut Rng, name: &str, twist: Twist) -> (AClass, AClass) {
 	(c, s)
 }
 
-const CLASS_NAMES: [&str; 9] = ["net/minecraft/A.class", "net/minecraft/util/B.class", "net/minecraft/C$D.class", "Top.class", "com/google/Lib.class", "net/minecraftx/E.class", "org/x/Y.class", "META-INF/versions/9/Z.class", "net/minecraft/server/S.class"];
-const RES_NAMES: [&str; 9] = ["pack.png", "assets/lang/en.json", "data/x.txt", "log4j2.xml", "lib/x.class.txt", "X.SF", "version.json", "assets/ü.txt", "net/minecraft/data.bin"];
-const META_NAMES: [&str; 10] = ["META-INF/MANIFEST.MF", "META-INF/MOJANGCS.SF", "META-INF/MOJANGCS.RSA", "META-INF/X.DSA", "META-INF/services/x", "META-INF/sub/Y.SF", "meta-inf/Z.SF", "META-INF/.SF", "META-INF/a.RSA.txt", "META-INF/MANIFEST.MF.SF"];
-const DIR_NAMES: [&str; 4] = ["net/", "net/minecraft/", "assets/", "META-INF/"];
+// classes directly in net/minecraft, in sub packages, in the default package, under look-alike prefixes
+// (net/minecraftx/, net/minecraft.class, net/Minecraft/), in library packages, multi-release
+const CLASS_NAMES: [&str; 14] = ["net/minecraft/A.class", "net/minecraft/util/B.class", "net/minecraft/C$D.class", "Top.class", "com/google/Lib.class", "net/minecraftx/E.class", "org/x/Y.class", "META-INF/versions/9/Z.class", "net/minecraft/server/S.class",
+	"net/minecraft/Bootstrap.class", "net/minecraft.class", "net/Minecraft/M.class", "Default.class", "net/ü/𝒜.class"];
+const RES_NAMES: [&str; 12] = ["pack.png", "assets/lang/en.json", "data/x.txt", "log4j2.xml", "lib/x.class.txt", "X.SF", "version.json", "assets/ü.txt", "net/minecraft/data.bin",
+	"net/minecraft", "com/x.class/y", "com/google/Lib.CLASS"];
+const META_NAMES: [&str; 14] = ["META-INF/MANIFEST.MF", "META-INF/MOJANGCS.SF", "META-INF/MOJANGCS.RSA", "META-INF/X.DSA", "META-INF/services/x", "META-INF/sub/Y.SF", "meta-inf/Z.SF", "META-INF/.SF", "META-INF/a.RSA.txt", "META-INF/MANIFEST.MF.SF",
+	"META-INF/X.EC", "META-INF/x.sf", "META-INF/SIG.RSA/keep", "META-INF"];
+const DIR_NAMES: [&str; 6] = ["net/", "net/minecraft/", "assets/", "META-INF/", "com/x.class/", "META-INF/D.SF/"];
+
+/// entry names for the rule sweep: every prefix x stem x suffix that touches one of the string tests of the
+/// entry loop (starts_with "META-INF/", "net/minecraft/"; ends_with ".SF", ".RSA", ".class"; contains '/';
+/// the zip reader's kind test: trailing '/' or '\\', ".class"), plus the generators' fixed names
+pub fn rule_names() -> Vec<String> {
+	let prefixes = ["", "net/", "net/minecraft/", "net/minecraftx/", "net/minecraft", "net/minecraft/sub/", "META-INF/", "meta-inf/", "META-INF", "com/x/", "/", "net\\minecraft\\"];
+	let stems = ["A", "", "Bootstrap", "ü𝒜"];
+	let suffixes = [".class", ".SF", ".RSA", ".DSA", ".class/", ".CLASS", ".class.txt", "", "/", ".sf", ".class\\", ".classs"];
+	let mut v: Vec<String> = vec![];
+	let mut add = |n: String| { if !n.is_empty() && n != "META-INF/MANIFEST.MF" && !v.contains(&n) { v.push(n); } };
+	for n in CLASS_NAMES.iter().chain(RES_NAMES.iter()).chain(META_NAMES.iter()).chain(DIR_NAMES.iter()) { add((*n).to_owned()); }
+	for p in prefixes { for s in stems { for x in suffixes { add(format!("{p}{s}{x}")); } } }
+	v
+}
 
 fn gen_time(rng: &mut Rng) -> (u16, u8, u8, u8, u8, u8) { (rng.range(1980, 2030) as u16, rng.range(1, 12) as u8, rng.range(1, 28) as u8, rng.below(24) as u8, rng.below(60) as u8, (rng.below(30) * 2) as u8) }
+/// an Info-ZIP extended timestamp on every sixth zip entry: mtime alone, mtime+atime, all three, mtime+ctime
+fn gen_ext(rng: &mut Rng) -> Option<(u8, [u32; 3])> {
+	if !rng.chance(1, 6) { return None; }
+	Some((*rng.pick(&[1u8, 3, 7, 5]), [rng.range(0, 2_000_000_000) as u32, rng.range(0, 2_000_000_000) as u32, rng.range(0, 2_000_000_000) as u32]))
+}
 fn gen_bytes(rng: &mut Rng) -> Vec<u8> { (0..rng.below(4)).map(|_| rng.below(256) as u8).collect() }
 
 pub fn jar_pair(rng: &mut Rng, twist: Twist, route: Route) -> (AJar, AJar) {
@@ -179,10 +238,10 @@ pub fn jar_pair(rng: &mut Rng, twist: Twist, route: Route) -> (AJar, AJar) {
 	let mix = rng.below(4);
 	let place = |rng: &mut Rng| -> usize { match mix { 0 => rng.below(2), 1 => 2, _ => rng.below(3) } };
 	let mut names: Vec<(&str, usize)> = vec![]; // (name, kind 0 class 1 resource 2 meta 3 dir)
-	for n in CLASS_NAMES { if rng.chance(1, 3) { names.push((n, 0)); } }
-	for n in RES_NAMES { if rng.chance(1, 5) { names.push((n, 1)); } }
-	for n in META_NAMES { if rng.chance(1, 4) { names.push((n, 2)); } }
-	for n in DIR_NAMES { if rng.chance(1, 4) { names.push((n, 3)); } }
+	for n in CLASS_NAMES { if rng.chance(1, 4) { names.push((n, 0)); } }
+	for n in RES_NAMES { if rng.chance(1, 6) { names.push((n, 1)); } }
+	for n in META_NAMES { if rng.chance(1, 5) { names.push((n, 2)); } }
+	for n in DIR_NAMES { if rng.chance(1, 5) { names.push((n, 3)); } }
 	if rng.chance(1, 30) { names.clear(); }
 	rng.shuffle(&mut names);
 	let mut twisted = false;
@@ -210,8 +269,8 @@ pub fn jar_pair(rng: &mut Rng, twist: Twist, route: Route) -> (AJar, AJar) {
 			_ => (AContent::Dir, AContent::Dir),
 		};
 		let pr = rng.chance(1, 2);
-		if p == 0 || p == 2 { client.push(AEntry { parsed_repr: pr, deflate: rng.chance(1, 2), ..AEntry::new(n, gen_time(rng), cc) }); }
-		if p == 1 || p == 2 { server.push(AEntry { parsed_repr: if rng.chance(3, 4) { pr } else { !pr }, deflate: rng.chance(1, 2), ..AEntry::new(n, gen_time(rng), sc) }); }
+		if p == 0 || p == 2 { client.push(AEntry { parsed_repr: pr, deflate: rng.chance(1, 2), ext: gen_ext(rng), ..AEntry::new(n, gen_time(rng), cc) }); }
+		if p == 1 || p == 2 { server.push(AEntry { parsed_repr: if rng.chance(3, 4) { pr } else { !pr }, deflate: rng.chance(1, 2), ext: gen_ext(rng), ..AEntry::new(n, gen_time(rng), sc) }); }
 	}
 	// the two jars list their entries in independent orders
 	if rng.chance(1, 2) { rng.shuffle(&mut server); }
